@@ -750,6 +750,76 @@ def history_rule(R, cfg, lib, rid='R7'):
             R.violation(rid, c, fns['getUtcOffset'].loc, bad)
 
 
+def python_history_rule(R, cfg, rid='R8'):
+    """C08 for the Python reference: one ZoneSpecifier object answers a query the same whatever was asked of it before - queries by
+    epoch seconds and by date-time in the same and in other years (also a year outside the zone data, which raises), init_for_year()
+    on its own, and get_buffer_sizes(), which walks the years and leaves the object on the last one.  The answer of the last query of
+    every sequence is compared with the answer of a fresh object (model zones, interpreted in full)."""
+    from . import py
+    from .pyeval import PyEval, Raised
+    import itertools
+    R.rule(rid, 'ZoneSpecifier: the answer to a query does not depend on what the object was asked before, get_buffer_sizes() included (model zones, interpreted in full)', floor=1)
+    zs = py.load(cfg, 'tools/zonedb/zone_specifier.py')
+    infos, _TX, _tzdb = compile_models(cfg)
+    ctor = zs.fn('ZoneSpecifier.__init__')
+    first = [p_ for p_ in ctor.params if p_ != 'self'][0]
+    loc = zs.fn('ZoneSpecifier.init_for_year').loc
+    has_sizes = 'ZoneSpecifier.get_buffer_sizes' in zs.funcs
+    for zname in (('Model/Dst', 'Model/Mixed') if cfg.tier == 'thorough' else ('Model/Dst',)):
+        if zname not in infos:
+            raise AnalysisError('model zone %s is not among the compiled ones' % zname)
+        pev = PyEval(cfg, max_steps=400000000)
+
+        def answer(spec, q):
+            kind, arg = q
+            try:
+                if kind == 'seconds':
+                    r = pev.call(zs, 'ZoneSpecifier.get_timezone_info_for_seconds', [arg], recv=spec)
+                elif kind == 'datetime':
+                    r = pev.call(zs, 'ZoneSpecifier.get_timezone_info_for_datetime', [arg], recv=spec)
+                elif kind == 'init':
+                    pev.call(zs, 'ZoneSpecifier.init_for_year', [arg], recv=spec)
+                    return 'done'
+                else:
+                    pev.call(zs, 'ZoneSpecifier.get_buffer_sizes', list(arg), recv=spec)
+                    return 'done'
+            except Raised as r_:
+                return 'raises %s' % str(r_.what)[:60]
+            if r is None:
+                return None
+            return (getattr(r, 'total_offset', None), getattr(r, 'dst_offset', None), getattr(r, 'abbrev', None)) if hasattr(r, 'total_offset') else tuple(r)
+        queries = [('seconds', _secs(_dt.datetime(2004, 7, 15, 12))), ('seconds', _secs(_dt.datetime(2005, 1, 15, 12))), ('seconds', _secs(_dt.datetime(2005, 7, 15, 12))),
+                   ('seconds', _secs(_dt.datetime(2005, 1, 1, 0, 30))), ('seconds', _secs(_dt.datetime(2006, 12, 31, 23, 30))), ('datetime', _dt.datetime(2005, 7, 15, 12)),
+                   ('datetime', _dt.datetime(2006, 2, 1, 3)), ('seconds', _secs(_dt.datetime(2006, 7, 1)))]
+        if 'ZoneSpecifier.get_timezone_info_for_datetime' not in zs.funcs:
+            queries = [q for q in queries if q[0] != 'datetime']
+        before = [('init', 2004), ('init', 2006), ('init', 2007)] + ([('sizes', (2000, 2007)), ('sizes', (2004, 2006))] if has_sizes else [])
+        c = 'ZoneSpecifier[%s]:history' % zname
+        bad, n = None, 0
+        fresh = {}
+        for q in queries:
+            fresh[q] = answer(pev.instantiate(zs, 'ZoneSpecifier', kwargs={first: infos[zname]}), q)
+        if cfg.tier == 'thorough':
+            seqs = [(a, b) for a in queries + before for b in queries] + [(a, b, c_) for a in before for b in queries[:3] for c_ in queries[2:6]]
+        else:
+            seqs = [(a, b) for a in [queries[0], queries[2], queries[4]] + before for b in (queries[1], queries[2], queries[5], queries[7]) if b in fresh]
+            seqs += [(a, queries[0], b) for a in before[-2:] for b in (queries[2], queries[7])]
+        for seq in seqs:
+            spec = pev.instantiate(zs, 'ZoneSpecifier', kwargs={first: infos[zname]})
+            got = None
+            for q in seq:
+                got = answer(spec, q)
+            n += 1
+            if got != fresh[seq[-1]] and bad is None:
+                def show_q(q):
+                    return '%s(%s)' % ({'seconds': 'at', 'datetime': 'local', 'init': 'init_for_year', 'sizes': 'get_buffer_sizes'}[q[0]],
+                                       (EPOCH + _dt.timedelta(seconds=q[1])) if q[0] == 'seconds' else q[1])
+                bad = '%s: after %s the query %s answers %s; a fresh ZoneSpecifier answers %s' % (zname, [show_q(q) for q in seq[:-1]], show_q(seq[-1]), got, fresh[seq[-1]])
+        R.instance(rid, c, loc, '%d query sequences' % n)
+        if bad:
+            R.violation(rid, c, loc, bad)
+
+
 def zoned_roundtrip_rule(R, cfg, lib, rid='R6'):
     """C05 on the model zones through the real TimeZone and processors: ZonedDateTime::forEpochSeconds(e, zone) is interpreted in full
     for the instants around every transition of 2004..2006 (and mid-months); the fields must be the UTC fields shifted by the offset the
